@@ -104,6 +104,8 @@ type Exec struct {
 	boundedBy []string
 	nlanes   int
 	pruneDir string
+	callFree map[string]SV // captured variables of the closure whose contract is being applied
+	freeMap  map[string]SV // (closure verified on its own) its captured variables
 	curFlow  func(from, to *ssa.BasicBlock, cond string, s *State)
 	blockDone *ssa.BasicBlock
 	splitN   int
